@@ -5,7 +5,14 @@ def R(pkg, run, quick, thorough, **kw):
     d.update(kw)
     return d
 
+LAB = "./internal/zzverif/lab"
+
 CHECKS = {
+    "C01": {
+        "runs": [
+            R(LAB, "^TestC01", {"checks": 1500, "timeout": 600}, {"checks": 3000, "shards": 16, "timeout": 2400}),
+        ],
+    },
     "C08": {
         "runs": [
             R("./proxyproto", "^TestC08Func", {"checks": 30000, "timeout": 300}, {"checks": 300000, "shards": 6, "timeout": 1500}),
@@ -32,6 +39,9 @@ CHECKS = {
 LEVELS = {}  # default: exploration
 
 RULES = {
+    "C01": "rapid draws a connection script of 1-4 requests for one of three long-lived proxies (direct, upstream HTTP proxy, MITM): method from 10 incl. custom tokens; absolute/origin form; path of RFC 3986 segments with upper/lower-case escapes, sub-delims, dot segments, empty segments, empty path; 11 query shapes; up to 8 end-to-end fields from a pool with repeated and case-variant names, "
+           "Connection with nominated names, every hop-by-hop field, 0-2 pre-existing Via and X-Forwarded-For lines, X-Forwarded-Host/Url/Proto, Accept-Encoding and User-Agent present/absent, shuffled; body none/Content-Length/chunked with sizes at the 4 KiB and 32 KiB boundaries and generated chunk sizes; HTTP/1.0 and Connection: close on the last request; sequential or pipelined writing with generated cut points. "
+           "The scripted next hop records raw bytes, parsed by the harness codec; oracle compares method, request-target bytes, Host, per-name ordered values in both directions, hop-by-hop absence, Via/XFF element lists, X-Forwarded-* fill-in, Accept-Encoding, User-Agent, body bytes. Non-trivial = non-direct config, >=2 requests on the connection, body >= 4 KiB, repeated names or Connection-nominated names. Distinct = distinct full request scripts.",
     "C08": "rapid draws a structured header (v1 TCP4/TCP6/UNKNOWN with pool addresses of minimal..maximal length and 10 mutation kinds; v2 with any command nibble x family byte, address block, TLV tail up to the 2048 limit, oversize declared lengths; raw byte strings with and without signature), "
            "a payload chosen to expose over-reads (starts with CRLF, looks like another header), an optional truncation offset (EOF or stall), cut points biased to the parser's optimistic-read offsets (13/16/22/24/32, header end +-1) or byte-wise, and 0-3 extra concurrent callers; "
            "run at function level (ReadHeader over a reader that returns exactly the segments) and at connection level (proxyproto.Listener over net.Pipe or loopback TCP, with and without connfu). "
@@ -49,6 +59,9 @@ RULES = {
 }
 
 ASSUMPTIONS = {
+    "C01": ["outside the generated domain (semantics-preserving net/http normalisations the statement does not speak about): Pragma/Cache-Control, Expect: 100-continue, non-RFC path characters, Host contradicting an absolute-form authority, leading/trailing OWS in values, request trailers, chunked bodies on HTTP/1.0, empty User-Agent value",
+            "origin-form requests on a plain listener never carry X-Forwarded-Proto (there the header selects the outgoing scheme by design)",
+            "configured header rules and site credentials are covered by C16 / C06 checks, not here"],
     "C08": ["v1 'soft' malformations (port > 65535, leading zeros, double spaces, bare LF) may be accepted or rejected; only the safety clauses are asserted for them",
             "v2 unassigned commands and PROXY with unspecified/unsupported family may be rejected or accepted; if accepted the socket addresses and the exact payload are required",
             "header timeout upper bound uses a 2 s tolerance; well-formed cases run with a 10 s header timeout so machine load cannot make them late",
@@ -64,6 +77,11 @@ ASSUMPTIONS = {
 # MANIFEST texts
 
 META = {
+    "C01": {
+        "technique": "property-based testing (rapid) over generated keep-alive/pipelined connection scripts against real forwarder proxies; round-trip oracle: bytes recorded by a scripted next hop, parsed by an independent HTTP/1 codec, compared field by field with what the raw client wrote",
+        "text": "Generated request scripts sent through three real proxy configurations (direct, upstream HTTP proxy, MITM with TLS origin); every request that is answered is compared at the next hop in both directions (nothing dropped, nothing invented) with the documented differences computed by a reference function. 1500 scripts quick, 48000 thorough.",
+        "note": "The next hop is a harness peer, the proxies are built through the public API as command/run does; Go scheduler interleavings inside the proxy are sampled. Exclusions listed under assumptions.",
+    },
     "C08": {
         "technique": "property-based testing (rapid) with structure-derived expectations at function and connection level over exactly controlled segmentations; exhaustive command x family enumeration and native byte-level fuzzing in the thorough tier",
         "text": "Every generated header is classified from its structure (well-formed with addresses / local / accept-or-reject / must-reject) and run through ReadHeader and through a real proxyproto.Listener with concurrent RemoteAddr/LocalAddr/Read callers; the oracle checks addresses, the exact payload, no leak, no nil address, no panic, failure within the header timeout. 34k cases quick, ~2M thorough + 16x256 enumeration + fuzzing.",
